@@ -135,7 +135,8 @@ def runStep (s : RunSt) (line : String) : RunSt × String :=
         let inClass := deepFanout s.thr (s.known ++ (external recs).map (·.url)) || hasBadUrl recs
         let tail := if inClass then "" else (if main == pure then "" else " PURE-DIFF") ++
           (if laws.isEmpty then "" else " LAW-FAIL:" ++ ",".intercalate (dedupS laws))
-        (s, if nondet then "nondet" else main ++ tail)
+        -- with restarts only the per-method totals are reported; those never depend on map order
+        (s, if nondet && full then "nondet" else main ++ tail)
     | _, _ => (s, "bad-op")
   | _ => (s, "bad-op")
 
@@ -208,8 +209,8 @@ def judgeFinish (s : JudgeSt) : String :=
       let why :=
         if c.runs.any (fun o => o.nondet) then "outcome-depends-on-map-iteration-order"
         else if c.runs.any (fun o => o.fails != 0) then "batch-rejected-traffic-lost"
+        else if c.runs.any (fun o => !conserves c.recs { o with avgOk := true }) then "totals-not-conserved"
         else if c.runs.any (fun o => !o.avgOk) then "float-mean-outside-tolerance"
-        else if c.runs.any (fun o => !conserves c.recs o) then "totals-not-conserved"
         else "batch-dependent-statistics"
       let idx := (c.runs.zipIdx.filter (fun p => !(p.1.fails == 0 && conserves c.recs p.1))).map (·.2)
       s!"fail {fid} {why} runs={idx}".replace ", " ","
